@@ -33,6 +33,28 @@ for _bn, _b in BASES.items():
         _make(_bn, _b, _v)
 
 
+def _make_eq(base_name, base, variant):
+    """str / bytes subclasses with an equality of their own: 'ci' compares and hashes case-insensitively (differently
+    spelled values are equal), 'eqonly' defines __eq__ without __hash__ (instances are unhashable)"""
+    name = '%s_%s' % (base_name.capitalize(), variant)
+    ns = {'__module__': __name__, '__qualname__': name}
+    if variant == 'ci':
+        ns['__eq__'] = lambda self, other: isinstance(other, base) and base.lower(self) == base.lower(other)
+        ns['__ne__'] = lambda self, other: not (isinstance(other, base) and base.lower(self) == base.lower(other))
+        ns['__hash__'] = lambda self: hash(base.lower(self))
+    else:
+        ns['__eq__'] = lambda self, other: base.__eq__(self, other)
+        ns['__hash__'] = None
+    cls = type(name, (base,), ns)
+    setattr(_mod, name, cls)
+    SUBCLASSES[(base_name, variant)] = cls
+
+
+for _bn in ('str', 'bytes'):
+    for _v in ('ci', 'eqonly'):
+        _make_eq(_bn, BASES[_bn], _v)
+
+
 class IntE(enum.IntEnum):
     ZERO = 0
     ONE = 1
